@@ -367,8 +367,8 @@ func min(a, b int) int {
 
 func main() {
 	mon.Main(mon.Spec{
-		Prop: "C26",
-		Rule: "case = input file and argument vector: valid RV64 ELF files around generated programs, truncations (random and at structural boundaries), header bit flips, non-RISC-V code, huge segment/section sizes, entry points at every offset in and around the code (inside any instruction incl. the last of a block), constant jumps/branches rewritten to arbitrary even offsets (into the middle of instructions, behind the end), code sections with 1-3 trailing bytes that begin an instruction, random ELF models, non-ELF content, empty file, directory, missing path, 0 and 2 arguments; the first 400 (thorough 8000) cases run the production binary under a pty with window heights {1,2,5,8,24,40,80} and a quit script, the rest run the identical loading pipeline in-process (10 files per case); non-trivial = binary run that ended (error exit or UI entered), or in-process file that reached instruction parsing; distinct by content",
+		Prop:        "C26",
+		Rule:        "case = input file and argument vector: valid RV64 ELF files around generated programs, truncations (random and at structural boundaries), header bit flips, non-RISC-V code, huge segment/section sizes, entry points at every offset in and around the code (inside any instruction incl. the last of a block), constant jumps/branches rewritten to arbitrary even offsets (into the middle of instructions, behind the end), code sections with 1-3 trailing bytes that begin an instruction, random ELF models, non-ELF content, empty file, directory, missing path, 0 and 2 arguments; the first 400 (thorough 8000) cases run the production binary under a pty with window heights {1,2,5,8,24,40,80} and a quit script, the rest run the identical loading pipeline in-process (10 files per case); non-trivial = binary run that ended (error exit or UI entered), or in-process file that reached instruction parsing; distinct by content",
 		Explanation: "oracle: the production binary (built from the tree under test with the hook guard off) must not die by a signal or with a Go crash, must print 'mltwist: ...' when exiting non-zero, and must have entered the UI when exiting zero; hung runs are counted, not judged; in-process: elf.NewParser -> MachineCode -> Memory -> parser.Parse -> deps.NewCode -> memory.NewBytes must not panic",
 		Assumptions: []string{"binary runs under ulimit -v 2 GiB and a 20 s watchdog", "pty via /dev/ptmx"},
 		Cases: func(t string) int {
